@@ -5,7 +5,8 @@
     function [pubsuf], an arbitrary TXT suffix and cache time. *)
 From Coq Require Import ZArith List.
 From AGH Require Import Base.Run Base.Bytes Model.HashPrefix Proofs.HashPrefix Proofs.HashPrefixMatch
-  Model.HashPrefixBytes Proofs.HashPrefixBytes Model.HashPrefixLRU Proofs.HashPrefixHist Proofs.HashPrefixLRU.
+  Model.HashPrefixBytes Proofs.HashPrefixBytes Model.HashPrefixLRU Proofs.HashPrefixHist Proofs.HashPrefixLRU
+  Model.HashPrefixGlue Proofs.HashPrefixGlue.
 Import ListNotations.
 
 (** The question is the hex of the 2-byte prefixes, each followed by a dot,
@@ -534,3 +535,233 @@ Example C19_lru_order_premises_satisfiable :
   = [([k 1%Z], 10); ([k 1%Z; k 2%Z], 20); ([k 1%Z; k 2%Z; k 3%Z], 30); ([k 1%Z; k 2%Z; k 3%Z; k 4%Z], 40);
      ([k 2%Z; k 3%Z; k 4%Z; k 1%Z], 40); ([k 3%Z; k 4%Z; k 1%Z; k 5%Z], 40); ([k 6%Z], 42)]%Z.
 Proof. exact lru_order_example. Qed.
+
+(** ** The glue between DNSFilter.CheckHost and the checkers (round 5) *)
+
+(** The test at the top of checkSafeBrowsing / checkParental does not look at
+    the host: for every two hosts it gives the same answer, and that answer is
+    "protection is on and the service is enabled for the request". *)
+Theorem C19_glue_no_host_short_cut : forall s st h1 h2, glue_calls s st h1 = glue_calls s st h2.
+Proof. exact glue_calls_host_independent. Qed.
+Print Assumptions C19_glue_no_host_short_cut.
+
+Theorem C19_glue_calls_exactly_switches : forall s st h,
+  glue_calls s st h = true <-> st_protection st = true /\ svc_enabled s st = true.
+Proof. exact glue_calls_spec. Qed.
+Print Assumptions C19_glue_calls_exactly_switches.
+
+(** Through CheckHost, for any two checkers: the safe-browsing checker is
+    called exactly when the name is not the root query and protection and
+    safe browsing are on, and it is called with the lower-case name. *)
+Theorem C19_glue_safebrowsing_sees : forall (C1 C2 : Type) (sb : bytes -> C1 -> C1 * check_out)
+    (pc : bytes -> C2 -> C2 * check_out) st spelled c1 c2,
+  match g_sb (snd (glue_check_host sb pc st spelled c1 c2)) with
+  | Some (h, o) =>
+      spelled <> [] /\ st_protection st = true /\ st_safebrowsing st = true /\
+      h = lower spelled /\ o = snd (sb (lower spelled) c1)
+  | None => spelled = [] \/ st_protection st = false \/ st_safebrowsing st = false
+  end.
+Proof. exact @glue_sb_called. Qed.
+Print Assumptions C19_glue_safebrowsing_sees.
+
+(** The parental-control checker likewise, unless the safe-browsing checker
+    failed or blocked (then it is not asked at all). *)
+Theorem C19_glue_parental_sees : forall (C1 C2 : Type) (sb : bytes -> C1 -> C1 * check_out)
+    (pc : bytes -> C2 -> C2 * check_out) st spelled c1 c2,
+  let out := snd (glue_check_host sb pc st spelled c1 c2) in
+  match g_pc out with
+  | Some (h, o) =>
+      spelled <> [] /\ st_protection st = true /\ st_parental st = true /\ h = lower spelled /\
+      o = snd (pc (lower spelled) c2) /\
+      match g_sb out with Some (_, o1) => o_err o1 = false /\ o_blocked o1 = false | None => True end
+  | None =>
+      spelled = [] \/ st_protection st = false \/ st_parental st = false \/
+      exists h o1, g_sb out = Some (h, o1) /\ (o_err o1 = true \/ o_blocked o1 = true)
+  end.
+Proof. exact @glue_pc_called. Qed.
+Print Assumptions C19_glue_parental_sees.
+
+(** What the code's use of publicsuffix.PublicSuffix yields, exactly: nothing
+    is hashed iff the name is empty or the cut of the name to its last four
+    labels IS its ICANN-section public suffix (for a name of at most four
+    labels: the name is an ICANN suffix itself).  The section flag decides. *)
+Theorem C19_enumeration_empty_iff : forall pubsuf host,
+  names_to_hash pubsuf host = [] <->
+  host = [] \/ (snd (pubsuf host) = true /\ fst (pubsuf host) = trim_host host).
+Proof. exact names_to_hash_nil_iff. Qed.
+Print Assumptions C19_enumeration_empty_iff.
+
+(** Hence a non-empty name of at most four labels whose suffix is not of the
+    ICANN section (a private-section suffix itself, such as github.io; a
+    single label under the default rule; any name on such a suffix) has
+    itself among the hashed names. *)
+Theorem C19_non_icann_name_enumerated : forall pubsuf host,
+  host <> [] -> snd (pubsuf host) = false -> (count dot host < 4)%nat ->
+  In host (names_to_hash pubsuf host).
+Proof. exact non_icann_own_name_enumerated. Qed.
+Print Assumptions C19_non_icann_name_enumerated.
+
+(** And where nothing is enumerated the Checker neither asks nor blocks. *)
+Theorem C19_nothing_enumerated_nothing_asked : forall sha pubsuf suffix ct svc order evs now host c,
+  names_to_hash pubsuf host = [] ->
+  check sha pubsuf suffix ct svc order evs now host c
+  = (c, {| o_blocked := false; o_err := false; o_question := None; o_sets_left := length evs |}).
+Proof. exact nothing_enumerated_nothing_asked. Qed.
+Print Assumptions C19_nothing_enumerated_nothing_asked.
+
+(** Composition.  For EVERY host as spelled in the request, every pair of
+    databases, caches exact for them, services that may fail, and every
+    settings: the reason CheckHost gives is [glue_verdict]: safe browsing if
+    protection and safe browsing are on and some enumerated name of the
+    lower-case host is in the safe-browsing database; otherwise parental if
+    protection and parental control are on and some enumerated name is in the
+    parental database; otherwise not filtered; an error never blocks; the
+    caches stay exact. *)
+Theorem C19_glue_blocks_iff_listed : forall sha pubsuf sfx1 sfx2 ct1 ct2 db1 db2 svc1 svc2
+    ord1 ord2 ev1 ev2 now1 now2 st spelled c1 c2,
+  cache_inv db1 c1 -> cache_inv db2 c2 -> svc_ok db1 svc1 -> svc_ok db2 svc2 ->
+  let res := glue_check_host (check sha pubsuf sfx1 ct1 svc1 ord1 ev1 now1)
+                             (check sha pubsuf sfx2 ct2 svc2 ord2 ev2 now2) st spelled c1 c2 in
+  cache_inv db1 (fst (fst res)) /\ cache_inv db2 (snd (fst res)) /\
+  (g_err (snd res) = false ->
+   g_reason (snd res) = glue_verdict (db_verdict sha pubsuf db1) (db_verdict sha pubsuf db2) st spelled) /\
+  (g_err (snd res) = true -> g_reason (snd res) = RNotFiltered).
+Proof. exact glue_blocks_iff_listed. Qed.
+Print Assumptions C19_glue_blocks_iff_listed.
+
+(** [glue_verdict] in words. *)
+Theorem C19_glue_verdict_listed : forall sha pubsuf db1 db2 st spelled,
+  let r := glue_verdict (db_verdict sha pubsuf db1) (db_verdict sha pubsuf db2) st spelled in
+  (r = RSafeBrowsing <-> svc_on SafeBrowsing st = true /\ listed sha pubsuf db1 (lower spelled)) /\
+  (r = RParental <-> ~ (svc_on SafeBrowsing st = true /\ listed sha pubsuf db1 (lower spelled)) /\
+                     svc_on Parental st = true /\ listed sha pubsuf db2 (lower spelled)) /\
+  (r <> RNotFiltered <-> (svc_on SafeBrowsing st = true /\ listed sha pubsuf db1 (lower spelled)) \/
+                         (svc_on Parental st = true /\ listed sha pubsuf db2 (lower spelled))).
+Proof. exact glue_verdict_listed. Qed.
+Print Assumptions C19_glue_verdict_listed.
+
+(** With the service enabled for the request: blocked iff listed. *)
+Theorem C19_glue_safebrowsing_iff_listed : forall sha pubsuf sfx1 sfx2 ct1 ct2 db1 db2 svc1 svc2
+    ord1 ord2 ev1 ev2 now1 now2 st spelled c1 c2,
+  cache_inv db1 c1 -> cache_inv db2 c2 -> svc_ok db1 svc1 -> svc_ok db2 svc2 ->
+  st_protection st = true -> st_safebrowsing st = true ->
+  let out := snd (glue_check_host (check sha pubsuf sfx1 ct1 svc1 ord1 ev1 now1)
+                                  (check sha pubsuf sfx2 ct2 svc2 ord2 ev2 now2) st spelled c1 c2) in
+  g_err out = false -> (g_reason out = RSafeBrowsing <-> listed sha pubsuf db1 (lower spelled)).
+Proof. exact glue_safebrowsing_iff_listed. Qed.
+Print Assumptions C19_glue_safebrowsing_iff_listed.
+
+Theorem C19_glue_parental_iff_listed : forall sha pubsuf sfx1 sfx2 ct1 ct2 db1 db2 svc1 svc2
+    ord1 ord2 ev1 ev2 now1 now2 st spelled c1 c2,
+  cache_inv db1 c1 -> cache_inv db2 c2 -> svc_ok db1 svc1 -> svc_ok db2 svc2 ->
+  st_protection st = true -> st_safebrowsing st = false -> st_parental st = true ->
+  let out := snd (glue_check_host (check sha pubsuf sfx1 ct1 svc1 ord1 ev1 now1)
+                                  (check sha pubsuf sfx2 ct2 svc2 ord2 ev2 now2) st spelled c1 c2) in
+  g_err out = false -> (g_reason out = RParental <-> listed sha pubsuf db2 (lower spelled)).
+Proof. exact glue_parental_iff_listed. Qed.
+Print Assumptions C19_glue_parental_iff_listed.
+
+(** In particular: a listed name of at most four labels whose public suffix
+    is not of the ICANN section (the name may BE that suffix, or a single
+    label) is blocked. *)
+Theorem C19_glue_listed_non_icann_name_blocks : forall sha pubsuf sfx1 sfx2 ct1 ct2 db1 db2 svc1 svc2
+    ord1 ord2 ev1 ev2 now1 now2 st spelled c1 c2,
+  cache_inv db1 c1 -> cache_inv db2 c2 -> svc_ok db1 svc1 -> svc_ok db2 svc2 ->
+  st_protection st = true -> st_safebrowsing st = true ->
+  spelled <> [] -> snd (pubsuf (lower spelled)) = false -> (count dot (lower spelled) < 4)%nat ->
+  In (sha (lower spelled)) db1 ->
+  let out := snd (glue_check_host (check sha pubsuf sfx1 ct1 svc1 ord1 ev1 now1)
+                                  (check sha pubsuf sfx2 ct2 svc2 ord2 ev2 now2) st spelled c1 c2) in
+  g_err out = false -> g_reason out = RSafeBrowsing.
+Proof. exact glue_listed_non_icann_name_blocks. Qed.
+Print Assumptions C19_glue_listed_non_icann_name_blocks.
+
+(** Over every history of requests through one DNSFilter (the two Checkers
+    keep their caches between requests): the caches never change what the
+    glue answers. *)
+Theorem C19_glue_history_blocks_iff_listed : forall sha pubsuf sfx1 sfx2 ct1 ct2 db1 db2 svc1 svc2
+    ord1 ord2 ev1 ev2 now1 now2,
+  svc_ok db1 svc1 -> svc_ok db2 svc2 ->
+  forall reqs c1 c2, cache_inv db1 c1 -> cache_inv db2 c2 ->
+  Forall2 (fun (req : settings * bytes) out =>
+             (g_err out = false ->
+              g_reason out = glue_verdict (db_verdict sha pubsuf db1) (db_verdict sha pubsuf db2)
+                                          (fst req) (snd req)) /\
+             (g_err out = true -> g_reason out = RNotFiltered))
+          reqs (glue_run (check sha pubsuf sfx1 ct1 svc1 ord1 ev1 now1)
+                         (check sha pubsuf sfx2 ct2 svc2 ord2 ev2 now2) reqs c1 c2).
+Proof. exact glue_history_blocks_iff_listed. Qed.
+Print Assumptions C19_glue_history_blocks_iff_listed.
+
+(** The same for any two checkers that are transparent for verdicts v1, v2
+    (the statement does not depend on how the Checker is implemented). *)
+Theorem C19_glue_any_transparent_checkers : forall (C1 C2 : Type) (inv1 : C1 -> Prop) (inv2 : C2 -> Prop)
+    v1 v2 sb pc,
+  checker_transparent inv1 v1 sb -> checker_transparent inv2 v2 pc -> v1 [] = false -> v2 [] = false ->
+  forall reqs c1 c2, inv1 c1 -> inv2 c2 ->
+  Forall2 (fun (req : settings * bytes) out =>
+             (g_err out = false -> g_reason out = glue_verdict v1 v2 (fst req) (snd req)) /\
+             (g_err out = true -> g_reason out = RNotFiltered))
+          reqs (glue_run sb pc reqs c1 c2).
+Proof. exact @glue_run_spec. Qed.
+Print Assumptions C19_glue_any_transparent_checkers.
+
+(** Privacy through the glue: what a Checker behind it sends is the question
+    of [Check] for the lower-case name: exactly the prefixes of its
+    enumerated names that have no valid cache entry. *)
+Theorem C19_glue_safebrowsing_question_exact : forall (C2 : Type) sha pubsuf sfx ct svc ord ev now
+    (pc : bytes -> C2 -> C2 * check_out) st spelled c1 c2 h o q,
+  g_sb (snd (glue_check_host (check sha pubsuf sfx ct svc ord ev now) pc st spelled c1 c2)) = Some (h, o) ->
+  o_question o = Some q ->
+  h = lower spelled /\
+  unanswered sha pubsuf now c1 (lower spelled) <> [] /\
+  q = question sfx (unanswered sha pubsuf now c1 (lower spelled)).
+Proof. exact @glue_safebrowsing_question_exact. Qed.
+Print Assumptions C19_glue_safebrowsing_question_exact.
+
+Theorem C19_glue_parental_question_exact : forall (C1 : Type) sha pubsuf sfx ct svc ord ev now
+    (sb : bytes -> C1 -> C1 * check_out) st spelled c1 c2 h o q,
+  g_pc (snd (glue_check_host sb (check sha pubsuf sfx ct svc ord ev now) st spelled c1 c2)) = Some (h, o) ->
+  o_question o = Some q ->
+  h = lower spelled /\
+  unanswered sha pubsuf now c2 (lower spelled) <> [] /\
+  q = question sfx (unanswered sha pubsuf now c2 (lower spelled)).
+Proof. exact @glue_parental_question_exact. Qed.
+Print Assumptions C19_glue_parental_question_exact.
+
+(** Non-vacuity: a toy suffix list with an ICANN suffix (com), a private one
+    (github.io) and the default rule; the private suffix and the single label
+    are enumerated and blocked when listed, the ICANN suffix is not. *)
+Example C19_glue_premises_satisfiable :
+  Forall hash_wf GlueExamples.db /\ cache_inv GlueExamples.db [] /\
+  svc_ok GlueExamples.db (db_service GlueExamples.db) /\
+  snd (GlueExamples.pubsuf GlueExamples.github_io) = false /\
+  fst (GlueExamples.pubsuf GlueExamples.github_io) = GlueExamples.github_io /\
+  names_to_hash GlueExamples.pubsuf GlueExamples.github_io
+    = [GlueExamples.github_io; [105;111]%N] /\
+  names_to_hash GlueExamples.pubsuf GlueExamples.intranet = [GlueExamples.intranet] /\
+  names_to_hash GlueExamples.pubsuf GlueExamples.com = [] /\
+  g_reason (snd (glue_check_host GlueExamples.chk GlueExamples.chk GlueExamples.on
+                   GlueExamples.github_io [] [])) = RSafeBrowsing /\
+  g_reason (snd (glue_check_host GlueExamples.chk GlueExamples.chk GlueExamples.on
+                   GlueExamples.intranet [] [])) = RSafeBrowsing /\
+  g_reason (snd (glue_check_host GlueExamples.chk GlueExamples.chk GlueExamples.on
+                   GlueExamples.com [] [])) = RNotFiltered.
+Proof. exact glue_premises_satisfiable. Qed.
+
+(** The short cut of red-team change C19-I (skip the checkers when
+    publicsuffix.EffectiveTLDPlusOne fails: the name "is a public suffix
+    itself") is refuted: github.io, a private-section suffix, is enumerated,
+    listed and blocked by the code; with the short cut the checker is never
+    called and the name is not blocked. *)
+Theorem C19_glue_bare_suffix_shortcut_refuted :
+  exists sha pubsuf db st host,
+    st_protection st = true /\ st_safebrowsing st = true /\
+    snd (pubsuf host) = false /\
+    In host (names_to_hash pubsuf host) /\ In (sha host) db /\ Forall hash_wf db /\
+    let chk := check sha pubsuf GlueExamples.sfx (3600 * ns_sec)%Z (db_service db) [] [] 0%Z in
+    g_reason (snd (glue_check_host chk chk st host [] [])) = RSafeBrowsing /\
+    g_reason (snd (glue_check_host_with (glue_calls_bare pubsuf) chk chk st host [] [])) = RNotFiltered /\
+    g_sb (snd (glue_check_host_with (glue_calls_bare pubsuf) chk chk st host [] [])) = None.
+Proof. exact glue_bare_suffix_shortcut_refuted. Qed.
+Print Assumptions C19_glue_bare_suffix_shortcut_refuted.
